@@ -120,6 +120,20 @@ def check_grid(alg, N, tier="quick", seed=0):
     return {"fails": fails, "counts": counts, "stats": stats}
 
 
+def _work_seq(args):
+    """two rotation grids of the same size but different algorithm, volumes computed one after the other in ONE process
+    (both orders): each must still satisfy the contract (nothing may be carried over from the previous grid)"""
+    N, tier, seed, order = args
+    outs = []
+    for alg in order:
+        o = _work((alg, N, tier, seed))
+        for i, (what, clause, detail) in enumerate(o["fails"]):
+            o["fails"][i] = (what + f" [computed in one process in the order {list(order)}]", clause, detail)
+        o["sequence"] = list(order)
+        outs.append(o)
+    return outs
+
+
 def _work(args):
     alg, N, tier, seed = args
     try:
@@ -153,6 +167,16 @@ def run(tier, seed):
     tasks += [("zero4D", 1, tier, seed)] + [(a, n, tier, seed) for a, n in SMALL_3D]
     with mp.get_context("fork").Pool(min(16, os.cpu_count() or 1)) as pool:
         outs = list(pool.imap_unordered(_work, tasks, chunksize=1))
+    seq_tasks = [(N, tier, seed, order_) for N in ((6, 12, 20) if tier == "quick" else (4, 6, 9, 12, 20, 33, 41))
+                 for order_ in (("cube4D", "randomQ"), ("randomQ", "cube4D"))]
+    with mp.get_context("fork").Pool(min(16, os.cpu_count() or 1), maxtasksperchild=1) as pool:
+        for grp in pool.imap_unordered(_work_seq, seq_tasks, chunksize=1):
+            for o in grp:
+                res.case(("seq", o["alg"], o["N"], tuple(o["sequence"])), nontrivial=True)
+                for what, clause, detail in o["fails"]:
+                    if "alg=randomQ N=5 " in what:
+                        continue
+                    res.fail(what, {"alg": o["alg"], "N": o["N"], "tier": tier, "sequence": o["sequence"]}, clause=clause, detail=detail)
     order = {a: k for k, a in enumerate(ALGS + ("zero4D", "ico", "cube3D", "randomS", "zero3D"))}
     outs.sort(key=lambda o: (order[o["alg"]], o["N"]))
     worst = {}
@@ -188,6 +212,10 @@ def run(tier, seed):
 
 
 def replay(case):
+    if case.get("sequence"):
+        outs = _work_seq((int(case["N"]), case.get("tier", "quick"), int(case.get("seed", 0)), tuple(case["sequence"])))
+        fs = [f[0] for o in outs for f in o["fails"]]
+        return "; ".join(fs[:5]) if fs else None
     out = _work((case["alg"], int(case["N"]), case.get("tier", "quick"), int(case.get("seed", 0))))
     if out["fails"]:
         return "; ".join(f[0] for f in out["fails"][:5])
